@@ -28,7 +28,9 @@ RULE = (
     "of last values when the last source completes, or completes at the instant a source completes empty; any source "
     "error terminates with that error at that instant. Values AND ticks AND terminal are compared. amb: the output "
     "trace equals the timeline of exactly one source among those with the earliest first notification and every "
-    "other source's subscription log is [subscribe tick, that instant]. Non-trivial: >=2 sources and (>=1 output "
+    "other source's subscription log is [subscribe tick, that instant]. with_latest_from additionally: every other source "
+    "is subscribed before the primary (so values delivered at subscription time are present when a synchronously "
+    "emitting primary fires; the all-sources-emit-inside-subscribe idiom is generated on purpose). Non-trivial: >=2 sources and (>=1 output "
     "element or the output terminated while some source still had events to deliver / never terminates). "
     "Distinct = distinct case JSON."
 )
@@ -311,8 +313,23 @@ def _run(case):
     for r, (_, i) in enumerate(sorted(order)):
         sub_rank[i] = r
 
-    events = _merged(case, sub_rank)
     eff = [_effective(s, S) for s in specs]
+    if op == "with_latest_from" and n >= 2:
+        # "emits only on primary elements once every other source has a value": a source that delivers its value at
+        # subscription time (of / return_value / BehaviorSubject state idiom) has it before the primary can emit only
+        # if every other source is subscribed before the primary.
+        if 0 in sub_rank and any(j in sub_rank and sub_rank[j] > sub_rank[0] for j in range(1, n)):
+            return FAIL(
+                "with_latest_from:primary-subscribed-before-others",
+                f"subscription order (source: rank) {sub_rank}; the primary (0) must be subscribed last case={case}",
+                classes=cls,
+            )
+        prim_sync = [e for e in eff[0] if e[3] and e[1] == "N"]
+        if prim_sync and all(any(e[3] and e[1] == "N" for e in eff[j]) for j in range(1, n)):
+            cls.append("with_latest_from:sync-primary+sync-others")
+            if not any(e[3] and e[1] == "E" for ef in eff for e in ef):
+                cls.append("with_latest_from:state-idiom-all-primary-paired")
+    events = _merged(case, sub_rank)
     ticks = [e[0] for e in events]
     if any(events[j][0] == events[j + 1][0] and events[j][1] != events[j + 1][1] for j in range(len(events) - 1)):
         cls.append("cross-source-tie")
@@ -446,9 +463,9 @@ _FALSY = ["none", "i0", "false", "s", "l", "f0"]
 
 
 @st.composite
-def _timeline(draw, src_index, max_len):
-    n = draw(st.integers(0, max_len))
-    t = draw(st.integers(0, 3))
+def _timeline(draw, src_index, max_len, at_subscribe=False):
+    n = draw(st.integers(1 if at_subscribe else 0, max_len))
+    t = 0 if at_subscribe else draw(st.integers(0, 3))
     out = []
     for k in range(n):
         if k:
@@ -472,7 +489,12 @@ def _case(draw, max_len=5):
     form = draw(st.sampled_from(["fn", "op"]))
     n = draw(st.sampled_from([1, 2, 2, 2, 3, 3, 4]))
     srcs = []
+    # the "state" idiom: every source delivers its first value inside subscribe (of / return_value / BehaviorSubject)
+    idiom = draw(st.integers(0, 3)) == 0 if op == "with_latest_from" else draw(st.integers(0, 11)) == 0
     for i in range(n):
+        if idiom:
+            srcs.append({"kind": "sync", "tl": draw(_timeline(i, max_len, at_subscribe=True))})
+            continue
         kind = draw(st.sampled_from(["cold", "cold", "hot", "sync"]))
         srcs.append({"kind": kind, "tl": draw(_timeline(i, max_len))})
     return {"op": op, "form": form, "srcs": srcs, "sub_at": draw(st.sampled_from([0, 0, 1, 2, 3]))}
